@@ -30,6 +30,14 @@ example : ∃ s, run (init 2) [.queueDirect 1, .write (.direct 1) true .ok, .arm
   refine ⟨_, rfl, ?_⟩
   decide
 
+/-- a request that cannot be marshalled consumes an id but is never counted in flight -/
+example : ∃ s, run (init 2) [.queueDirect 1, .write (.direct 1) true .ok, .arm (.direct 1) .ok,
+      .queueUnsendable 3] = some s ∧
+    s.done = false ∧ quiescent s = true ∧ s.nextId = 2 ∧ s.inFlight = 1 ∧ s.sent.length = 1 ∧
+    s.unsendable = [3] ∧ s.armed = true := by
+  refine ⟨_, rfl, ?_⟩
+  decide
+
 /-- In a live quiescent state the read deadline is set iff something is outstanding — for every
 interleaving of senders (batching goroutine, direct senders), reader and cancellations. -/
 theorem deadline_tracks_outstanding {q : Nat} {s : St} (h : Reachable q s) (hd : s.done = false)
@@ -85,6 +93,13 @@ example : ∃ s, run (init 2) [.queueDirect 1, .write (.direct 1) true .ok, .que
       .clear .ok] = some s ∧
     s.done = false ∧ quiescent s = true ∧ s.nextId < uint32 ∧ s.sent = [] ∧ s.handed = [1, 2] ∧
     s.inFlight = 0 ∧ step s .timeout = none := by
+  refine ⟨_, rfl, ?_⟩
+  decide
+
+/-- only unsendable requests so far: the deadline was never set -/
+example : ∃ s, run (init 2) [.queueUnsendable 3, .queueUnsendable 4] = some s ∧
+    s.done = false ∧ quiescent s = true ∧ s.nextId = 2 ∧ s.sent = [] ∧ s.inFlight = 0 ∧
+    step s .timeout = none := by
   refine ⟨_, rfl, ?_⟩
   decide
 
